@@ -960,7 +960,58 @@ def c20(W, replay=None):
 
 
 # ---------------------------------------------------------------------------------------------
-REGISTRY = {"C01": c01, "C02": c02, "C03": c03, "C04": c04, "C05": c05, "C07": c07, "C08": c08, "C09": c09, "C10": c10, "C11": c11, "C12": c12, "C13": c13, "C14": c14, "C15": c15, "C17": c17, "C18": c18, "C19": c19, "C20": c20}
+# C06 unpredictability (Entropy / EntropyTrace + freshness monitors on system traces)
+
+
+def c06(W, replay=None):
+    W.build()
+    vs, index, traces = [], {}, 0
+    if not replay:
+        # design level: Secrecy holds exactly for the Csprng class
+        for cls in ("Csprng", "TimeSeededPrng", "SharedStream", "Correlated"):
+            out, viol = W.tlc_exhaustive("Entropy", cfg_text("Spec", dict(GenClass='"%s"' % cls, MaxLogins=3), ["Secrecy"]), "entropy-" + cls, workers=2,
+                                         expect_violation=(cls != "Csprng"))
+            if (cls == "Csprng") == bool(viol):
+                raise Infra("Entropy: Secrecy %s for generator class %s -- the specification is wrong" % ("violated" if viol else "holds", cls))
+        # the executable witnesses of the derivation actions against the real generator
+        trace = W.path("entropy.trace.ndjson")
+        tmp = W.path("tmp-entropy")
+        os.makedirs(tmp, exist_ok=True)
+        env = dict(os.environ, VERIF_OUT=trace, VERIF_TIER=W.tier)
+        p = subprocess.run([W.bin, "-test.run", "^TestEntropy$", "-test.timeout", "3000s"], env=env, capture_output=True, text=True, cwd=tmp)
+        if p.returncode != 0:
+            raise Infra("entropy witnesses failed to run:\n" + p.stdout[-2000:] + p.stderr[-2000:])
+        v = W.validate(trace, "entropy", module="EntropyTrace")
+        for k in ("DeriveFromTimeSeed", "DeriveFromPublic", "DeriveFromSibling"):
+            if not v["fired"].get(k):
+                raise Infra("witness for %s did not run" % k)
+        vs.append(v)
+        traces += v["len"]
+        log("[witness] %s" % "; ".join(json.dumps(json.loads(l)) for l in open(trace))[:600])
+        # handler level: the values of every login redirect are fresh (never those of an earlier login)
+        scen = family(W, "C05", "quick") + attacker_family(W, 300 if W.tier == "thorough" else 60) + random_histories(W, 300 if W.tier == "thorough" else 40)
+    else:
+        scen = [json.loads(l) for l in open(os.path.join(replay, "scenario.ndjson")) if l.strip()]
+    ids = set()
+    for i, s_ in enumerate(scen):
+        if s_["id"] in ids:
+            s_["id"] = "%s#%d" % (s_["id"], i)
+        ids.add(s_["id"])
+    index.update({s_["id"]: s_ for s_ in scen})
+    tr = W.drive("TestSys", scen, "sys")
+    vs.append(W.validate(tr, "sys"))
+    traces += len(scen)
+    return judge("C06", W, vs, index, level="other", traces=traces, samples=[{"witness_log": [json.loads(l) for l in open(W.path("entropy.trace.ndjson"))] if not replay else []}],
+                 extra_cov={"explanation": "TLC checks the attacker-knowledge closure of Entropy.tla (Secrecy holds only for the Csprng class); each derivation action has an executable witness run against "
+                                           "the real generator built as Check builds it (seed search over the request-time window for math/rand v1, correlation/repeat/shape tests over 3000 logins, duplicate ids among "
+                                           "concurrently built generators); handler-level reuse of state/nonce/challenge/session id across logins is judged by AuthMonitor on system traces. "
+                                           "This detects the modelled generator classes, not every conceivable weak generator; the static call-graph clause of the property is not claimed."},
+                 assumptions=["detects the modelled generator classes (time-seeded math/rand v1, shared stream, correlated/reused values, collisions), not every weak generator",
+                              "the type-checked call graph to an entropy source is static analysis, outside this technique, and is not claimed"])
+
+
+# ---------------------------------------------------------------------------------------------
+REGISTRY = {"C01": c01, "C02": c02, "C03": c03, "C04": c04, "C05": c05, "C06": c06, "C07": c07, "C08": c08, "C09": c09, "C10": c10, "C11": c11, "C12": c12, "C13": c13, "C14": c14, "C15": c15, "C17": c17, "C18": c18, "C19": c19, "C20": c20}
 
 
 def run(prop, W, replay=None):
